@@ -135,7 +135,7 @@ Section Voucher.
       assert (Fc : mfind X tkc c = None).
       { destruct (mfind X tkc c) as [t1|] eqn:Fc; [|reflexivity].
         destruct (tok_balance_totals X xcall MODULE _ _ _ _ _ B1 c t1 Fc) as (t & F0 & _). congruence. }
-      destruct (tok_balance_ext _ _ _ _ _ Fc B1') as [_ ->]. subst tkb. rewrite S1. lia.
+      destruct (tok_balance_ext _ _ _ _ _ Fc B1') as [_ ->]. subst tkb. rewrite S1 in V'. lia.
     - destruct (c' =? c); lia.
   Qed.
 
@@ -145,6 +145,15 @@ Section Voucher.
     intros (tk0 & v0 & tk1 & v1 & B0 & E & O & B1 & V) N.
     eapply tok_balance_mfind_none; [exact B0|]. eapply tok_exec_mfind_none; [exact E|].
     eapply tok_balance_mfind_none; [exact B1|]. exact N.
+  Qed.
+
+  Lemma token_effect2_mfind_none tk tk' c caller cl w1 d1 w2 d2 res c' :
+    token_effect2 xcall MODULE tk tk' c caller cl w1 d1 w2 d2 res -> mfind X tk' c' = None -> mfind X tk c' = None.
+  Proof.
+    intros (tka & v0 & tkb & e0 & tk1 & tkc & v1 & e1 & B0 & B0' & E & O & B1 & B1' & V & V') N.
+    eapply tok_balance_mfind_none; [exact B0|]. eapply tok_balance_mfind_none; [exact B0'|].
+    eapply tok_exec_mfind_none; [exact E|].
+    eapply tok_balance_mfind_none; [exact B1|]. eapply tok_balance_mfind_none; [exact B1'|]. exact N.
   Qed.
 
   (** flow 2.1 on an external contract: the module's ledger entry grew by exactly [a] *)
@@ -212,19 +221,23 @@ Section Voucher.
         [|subst s'; apply (invv_delete_pair s (cc_denom m)); [exact (conj (conj W U) B) | exact GP]].
       destruct E as (OW & P & L & BS & SS & (G1 & G2 & G3 & G4 & G5 & G6 & G7 & G8) & A & res & TE & _).
       split; [split; [unfold WF; rewrite G3, G5; exact W | rewrite G3; exact U]|].
-      apply (vbacked_step s s' G3); [| |exact B].
-      + intros c0 N. rewrite find_mtok_tokens in *. eapply token_effect_mfind_none; eassumption.
-      + intros id q v I O D F.
-        exists (ind ((p_owner p =? 2) && bytes_eqb v (cc_denom m)) (- cc_amount m)). split; [apply SS|].
-        assert (TA : MODULE = MODULE -> 0 <= transfer_amount (if p_owner p =? 1 then CMint (hex_to_addr (cc_receiver m)) (cc_amount m) else CTransfer (hex_to_addr (cc_receiver m)) (cc_amount m))).
-        { intros _. destruct (p_owner p =? 1); cbn; lia. }
-        pose proof (token_effect_ledger _ _ _ _ _ _ _ _ TE TA (p_erc20 q)) as LG.
-        rewrite Z.eqb_refl in LG. cbn [andb] in LG. change (snd (s_tokens s)) with (s_ext s) in LG.
-        change (snd (s_tokens s')) with (s_ext s') in LG.
-        destruct OW as [O1|O2].
-        * rewrite O1 in *. cbn [Z.eqb Pos.eqb andb transfer_amount] in *. unfold ind.
-          destruct (p_erc20 q =? p_erc20 p); lia.
-        * rewrite O2 in *. cbn [Z.eqb Pos.eqb andb transfer_amount] in *.
+      destruct OW as [O1|O2]; rewrite ?O1, ?O2 in *; cbn [Z.eqb Pos.eqb andb] in *.
+      + (* flow 1.1 *)
+        apply (vbacked_step s s' G3); [| |exact B].
+        * intros c0 N. rewrite find_mtok_tokens in *. eapply token_effect_mfind_none; eassumption.
+        * intros id q v I O D F. exists 0. split; [rewrite SS; unfold ind; ring|].
+          assert (NT : (MODULE =? MODULE) && is_transfer (CMint (hex_to_addr (cc_receiver m)) (cc_amount m)) = false)
+            by (cbn; apply andb_false_r).
+          pose proof (token_effect_ledger _ _ _ _ _ _ _ _ TE NT (p_erc20 q)) as LG.
+          change (snd (s_tokens s)) with (s_ext s) in LG. change (snd (s_tokens s')) with (s_ext s') in LG. lia.
+      + (* flow 2.2 *)
+        apply (vbacked_step s s' G3); [| |exact B].
+        * intros c0 N. rewrite find_mtok_tokens in *. eapply token_effect2_mfind_none; eassumption.
+        * intros id q v I O D F.
+          exists (ind (bytes_eqb v (cc_denom m)) (- cc_amount m)). split; [apply SS|].
+          assert (PA : 0 <= cc_amount m) by lia.
+          pose proof (token_effect2_ledger _ _ _ _ _ _ TE PA (p_erc20 q)) as LG.
+          change (snd (s_tokens s)) with (s_ext s) in LG. change (snd (s_tokens s')) with (s_ext s') in LG.
           destruct (bytes_eqb_spec v (cc_denom m)) as [->|NV]; unfold ind.
           -- destruct (p_erc20 q =? p_erc20 p); lia.
           -- destruct (Z.eqb_spec (p_erc20 q) (p_erc20 p)) as [EQ|_]; [|lia].
@@ -241,18 +254,18 @@ Section Voucher.
         apply (vbacked_step s s' G3); [| |exact B].
         * intros c0 N. rewrite find_mtok_tokens in *. eapply token_effect_mfind_none; eassumption.
         * intros id q v I O D F. exists 0. split; [rewrite SS; unfold ind; ring|].
-          assert (TA : MODULE = MODULE -> 0 <= transfer_amount (CBurnCoins (hex_to_addr (ce_sender m)) (ce_amount m))) by (intros _; cbn; lia).
-          pose proof (token_effect_ledger _ _ _ _ _ _ _ _ TE TA (p_erc20 q)) as LG.
-          cbn [transfer_amount] in LG. change (snd (s_tokens s)) with (s_ext s) in LG.
-          change (snd (s_tokens s')) with (s_ext s') in LG. destruct ((MODULE =? MODULE) && (p_erc20 q =? p_erc20 p)); lia.
+          assert (NT : (MODULE =? MODULE) && is_transfer (CBurnCoins (hex_to_addr (ce_sender m)) (ce_amount m)) = false)
+            by (cbn; apply andb_false_r).
+          pose proof (token_effect_ledger _ _ _ _ _ _ _ _ TE NT (p_erc20 q)) as LG.
+          change (snd (s_tokens s)) with (s_ext s) in LG. change (snd (s_tokens s')) with (s_ext s') in LG. lia.
       + (* flow 2.1 *)
         apply (vbacked_step s s' G3); [| |exact B].
         * intros c0 N. rewrite find_mtok_tokens in *. eapply token_effect_mfind_none; eassumption.
         * intros id q v I O D F.
           exists (ind (bytes_eqb v (ce_denom m)) (ce_amount m)). split; [apply SS|].
-          assert (TA : hex_to_addr (ce_sender m) = MODULE -> 0 <= transfer_amount (CTransfer MODULE (ce_amount m))) by (intros; cbn; lia).
-          pose proof (token_effect_ledger _ _ _ _ _ _ _ _ TE TA (p_erc20 q)) as LG.
-          destruct (Z.eqb_spec (hex_to_addr (ce_sender m)) MODULE) as [EQ|_]; [contradiction|]. cbn [andb] in LG.
+          assert (NT : (hex_to_addr (ce_sender m) =? MODULE) && is_transfer (CTransfer MODULE (ce_amount m)) = false).
+          { destruct (Z.eqb_spec (hex_to_addr (ce_sender m)) MODULE) as [EQ|_]; [contradiction | reflexivity]. }
+          pose proof (token_effect_ledger _ _ _ _ _ _ _ _ TE NT (p_erc20 q)) as LG.
           change (snd (s_tokens s)) with (s_ext s) in LG. change (snd (s_tokens s')) with (s_ext s') in LG.
           destruct (bytes_eqb_spec v (ce_denom m)) as [->|NV]; unfold ind; [|lia].
           assert (In (ce_denom m) (p_denoms q)) as DQ by (rewrite D; left; reflexivity).
@@ -273,10 +286,9 @@ Section Voucher.
     - intros c0 N. rewrite find_mtok_tokens, s_tokens_set in N. rewrite find_mtok_tokens.
       eapply tok_exec_mfind_none; eassumption.
     - intros id q v I OW D F. exists 0. split; [cbn [s_supply set_tokens]; ring|].
-      assert (TA : caller = MODULE -> 0 <= transfer_amount cl) by (intro; contradiction).
-      pose proof (tok_exec_ledger _ _ _ _ _ _ T TA (p_erc20 q)) as LG.
-      destruct (Z.eqb_spec caller MODULE) as [EQ|_]; [contradiction|]. cbn [andb] in LG.
-      cbn [s_ext set_tokens]. change (snd (s_tokens s)) with (s_ext s) in LG. lia.
+      destruct (tok_exec_ledger _ _ _ _ _ _ T (p_erc20 q)) as [[TT _]|LG].
+      + exfalso. destruct (Z.eqb_spec caller MODULE) as [EQ|_]; [contradiction | cbn in TT; discriminate].
+      + cbn [s_ext set_tokens]. change (snd (s_tokens s)) with (s_ext s) in LG. lia.
   Qed.
 
   Lemma inv_v_bank_send s f t d a s' k : bank_send s f t d a = (s', k) -> InvV s -> InvV s'.
@@ -327,4 +339,4 @@ Section Voucher.
   Qed.
 End Voucher.
 
-Arguments VBacked {X}. Arguments WFv {X}. Arguments InvV {X}. Arguments honest_view {X}. Arguments no_overdebit {X}.
+Arguments VBacked {X}. Arguments WFv {X}. Arguments InvV {X}. Arguments honest_view {X}. Arguments others_cannot_debit {X}.
